@@ -210,6 +210,13 @@ func (c *pkGen) genRecv(s *pkSnap) string {
 		if k == ci {
 			c.r.Hit("recv/forward-back-over-the-same-channel")
 		}
+		if strings.HasPrefix(den, "b") && den != "b"+strconv.Itoa(1+ci) && den != "b"+strconv.Itoa(1+k) {
+			// a hub-side token coming back and forwarded in escrow: if that forward is refunded, packet-forward
+			// v8.1.0 lowers ibc-go's total-escrow counter although the coins only move to the inbound channel's
+			// escrow; a later unescrow then panics (known finding C04/escrow/..., directed trace
+			// corpus/C04/pfm-refund-lowers-total-escrow.ops).  The model has no such counter: not generated.
+			den = "f"
+		}
 		memo = "fw:c" + strconv.Itoa(k)
 		c.r.Hit("recv/forward-memo")
 	}
